@@ -1209,7 +1209,12 @@ func runC01(r *Run, rng *Rng, replay string) {
 	for i := 0; i < nAttr; i++ {
 		c01attrHist(r, r.Seed, i, rng.Range(3, 30))
 	}
-	lap("witnesses+attribute histories")
+	nCols := 600
+	if thorough {
+		nCols = 20000
+	}
+	c01colsPhase(r, rng, nCols)
+	lap("witnesses+attribute histories+cols")
 	// 1. fixed boundary payloads through every string op
 	for i, s := range c01fixedPayloads() {
 		c01bm(r, s)
@@ -1389,6 +1394,8 @@ func c01replay(r *Run, path string) {
 			c01afterSave(r)
 		case "farcell":
 			c01farCell(r)
+		case "mcols", "hmcols":
+			c01mcols(r, rest)
 		case "attrpair":
 			if len(w) == 7 {
 				n := func(i int) int { v, _ := strconv.Atoi(w[i]); return v }
